@@ -72,13 +72,10 @@ Proof. exact dec_fuel_sufficient. Qed.
 (* the condition is not vacuous: were unmapActorProperties to call GobDecode through the (nil) Endpoints
    field, a property map with an "endpoints" key would be a panic *)
 Definition genv_nil_receiver : gob_env :=
-  mk_gob_env (ge_wfuncs genv)
+  set_rfuncs genv
     (edit_r (B "unmapActorProperties")
        (fun e => match e with GR f k c p => if bytes_eqb k (B "endpoints") then [GR f k (B "*Endpoints.GobDecode") p] else [e] | _ => [e] end)
-       (ge_rfuncs genv))
-    (ge_enc_methods genv) (ge_dec_methods genv) (ge_sw_enc genv) (ge_sw_enc_default genv) (ge_sw_dec genv) (ge_sw_dec_default genv)
-    (ge_sw_typer genv) (ge_sw_typer_default genv) (ge_layout genv) (ge_layout_endpoints genv)
-    (ge_leaf_w genv) (ge_leaf_r genv) (ge_leaf_layouts genv) (ge_sniff genv) (ge_ptr_iri genv) (ge_endpoints_codec genv).
+       (ge_rfuncs genv)).
 
 Theorem C04_gob_nil_receiver_refuted :
   gob_dec_safe genv_nil_receiver = false /\
